@@ -91,7 +91,7 @@ static void do_stress(int n, char **w) {
   cth mainrec = { .kind = K_CLIENT, .tr_id = nsub };
   if (sdmode >= 2) {
     int goal = (int) (seed % (unsigned) (nsub * ntasks / 2 + 1));
-    for (int k = 0; k < 4000000 && st_calls_done < goal && st_subs_done < nsub; ++k) sched_yield();
+    for (int k = 0; k < 4000000 && __atomic_load_n(&st_calls_done, __ATOMIC_SEQ_CST) < goal && __atomic_load_n(&st_subs_done, __ATOMIC_SEQ_CST) < nsub; ++k) sched_yield();
   }
   else for (int i = 0; i < nsub; ++i) __real_pthread_join(th[i], 0);
   me = &mainrec;
